@@ -407,6 +407,16 @@ func ruleC05Extra(c *Ctx) {
 	nDel := 0
 	core.EachInstr(uh, func(i ssa.Instruction) {
 		call, ok := i.(*ssa.Call)
+		// maps.DeleteFunc(m, func(k, _) bool { return names[k] }) deletes exactly the members of the name set, all of them
+		if ok && core.CalleeKey(&call.Call) == "maps.DeleteFunc" && len(call.Call.Args) == 2 {
+			if mt, isMap := call.Call.Args[0].Type().Underlying().(*types.Map); isMap && isEmptyInterface(mt.Elem()) {
+				nDel++
+				set, negated, okP := predMembership(call.Call.Args[1])
+				c.R.Check(okP && !negated, rule, "unmarshal:delete-known-names", c.pos(call), "every key that is a JSON name of the struct is deleted from the Extra map", "the deletion of known keywords from the Extra map is not `delete every key that is a member of the name set`: a known keyword can stay in Extra and be emitted twice on marshal")
+				c.R.Check(okP && c.fromPkgCall(set) != nil, rule, "unmarshal:delete-keys-are-name-set", c.pos(call), "the deleted keys are the members of the struct's JSON-name set", "the deleted keys are not decided by the JSON-name set computed by the package")
+			}
+			return
+		}
 		if !ok || core.CalleeKey(&call.Call) != "builtin.delete" {
 			return
 		}
@@ -626,7 +636,30 @@ func ruleC05NameSetEmbedded(c *Ctx) {
 	}
 	fi := core.Info(nameFn)
 	okRec := false
+	underAnonymous := func(b *ssa.BasicBlock) bool {
+		for _, br := range fi.DomGuards(b) {
+			cond, pol := br.Cond()
+			if fld, ok := cond.(*ssa.Field); ok && pol && core.CanonFieldOf(fld.X.Type(), fld.Field) == "Anonymous" {
+				return true
+			}
+			if ld, ok := cond.(*ssa.UnOp); ok && pol {
+				if fa, ok := ld.X.(*ssa.FieldAddr); ok && core.CanonFieldOf(fa.X.Type(), fa.Field) == "Anonymous" {
+					return true
+				}
+			}
+		}
+		return false
+	}
 	core.EachInstr(nameFn, func(i ssa.Instruction) {
+		// maps.Copy(set, nameFn(embedded type)) under the Anonymous test
+		if call, isCall := i.(*ssa.Call); isCall && core.CalleeKey(&call.Call) == "maps.Copy" && len(call.Call.Args) == 2 {
+			for _, src := range traceSources(call.Call.Args[1]) {
+				if sc, ok := src.(*ssa.Call); ok && sc.Call.StaticCallee() == nameFn && underAnonymous(call.Block()) {
+					okRec = true
+				}
+			}
+			return
+		}
 		mu, ok := i.(*ssa.MapUpdate)
 		if !ok {
 			return
@@ -698,6 +731,18 @@ func ruleNameSetExact(c *Ctx, rule string) {
 	}
 	n := 0
 	core.EachInstr(nameFn, func(i ssa.Instruction) {
+		// maps.Copy(set, other): the members inserted are those of other, which must be the set of an embedded struct
+		if call, isCall := i.(*ssa.Call); isCall && core.CalleeKey(&call.Call) == "maps.Copy" && len(call.Call.Args) == 2 {
+			n++
+			okSrc := false
+			for _, src := range traceSources(call.Call.Args[1]) {
+				if sc, ok := src.(*ssa.Call); ok && sc.Call.StaticCallee() == nameFn {
+					okSrc = true
+				}
+			}
+			c.R.Check(okSrc, rule, fmt.Sprintf("%s:insert#%d", core.FuncName(nameFn), n), c.pos(call), "the members copied in are those of an embedded struct's set", "the JSON-name set receives the members of a map that is not the name set of an embedded struct")
+			return
+		}
 		mu, ok := i.(*ssa.MapUpdate)
 		if !ok {
 			return
